@@ -5,8 +5,8 @@ CONSTANTS
   MaxRec = 2
   Reader = {1, 2}
   MaxId = 3
-  MaxLen = 9
-  EmitFrom = 9
+  MaxLen = 8
+  EmitFrom = 8
 VIEW View
 CONSTRAINT HBound
 INVARIANTS TypeOK CursorAtWofs FlushedIsLog ReadBelowFlushedExact NoReadBeyondFlushed Emit
